@@ -122,6 +122,10 @@ class _CenterManifoldDynamicsService(_DynamicsServiceBase):
         :class:`~hiten.system.hamiltonian.Hamiltonian`
             The Hamiltonian.
         """
+        # Switch to the requested degree on every call, not only on a cache miss
+        if degree != self._degree:
+            self.degree = degree
+
         cache_key = self.make_key("hamiltonian", degree)
 
         def _factory():
